@@ -99,8 +99,9 @@ if missing and not run.violations:
 run.extra['max_depth'] = int(stats['depth'])
 run.extra['fixpoint'] = stats['fixpoint'] == '1'
 run.extra['events'] = int(stats['events'])
+run.extra['directed_family_replays'] = int(stats.get('directed', 0))
 run.extra['outcome_classes'] = gates
-run.sample(f"depth {stats['depth']} over {stats['events']} events (connect a/b/empty, reorg 1-3, invalidate tip, flush, indexes down/up, sync, interrupted sync + restart): states={stats['states']} transitions={stats['transitions']}, states with all four indexes synced and fully checked={stats['full_checks']}")
+run.sample(f"depth {stats['depth']} over {stats['events']} events (connect a/b/empty, reorg 1-3, invalidate tip, flush, indexes down/up, sync, interrupted sync + restart): states={stats['states']} transitions={stats['transitions']}, states with all four indexes synced and fully checked={stats['full_checks']}; directed restart families (prefixes aft1t / af1tt / aitt + continuations): {stats.get('directed', 0)} replays")
 run.sample(f"lookups compared: txindex {stats['tx_found']} active txs (+{stats['stale_tx']} stale answers), spender index {stats['spenders']} active spenders (+{stats['neg_spender']} unspent outpoints), {stats['filters']} filters+headers, {stats['stats']} coinstats entries x 12 fields")
 run.sample(f'MuHash: {n_mh} multisets (all permutations / interleavings in C++) and {n_us} block UTXO sets vs Python muhash.py')
 run.assumptions.append('index Sync() is driven synchronously from the harness thread; the background sync thread and the asynchronous validation queue are not explored (see C14/C17 for concurrency)')
